@@ -487,8 +487,8 @@ class TokExec(NumExec):
                 p.env[nm] = PyL(cur.items + v.items)
             return [(p, None)]
         if isinstance(n, ast.Raise):
-            exc = n.exc.func if isinstance(n.exc, ast.Call) else n.exc
-            return [(p, ("raise", exc.id if isinstance(exc, ast.Name) else ast.unparse(exc)))]
+            from .numexec import raised_name
+            return [(p, ("raise", raised_name(n, p.env)))]
         if isinstance(n, ast.Assign) and len(n.targets) == 1 and isinstance(n.targets[0], ast.Name) and isinstance(n.value, ast.JoinedStr):
             try:
                 p.env[n.targets[0].id] = s.ev(p, n.value)
